@@ -232,7 +232,7 @@ pub fn case_from_bytes(p: &Profile, data: &[u8]) -> Option<Case> {
             (0..n)
                 .map(|_| match s.weighted(&[2, 4, 3, 1]) {
                     0 => POp::Yield,
-                    1 => POp::Push { n: s.range(1, 4) as u8 },
+                    1 => POp::Push { n: if s.pct(6) { s.range(32, 36) as u8 } else { s.range(1, 4) as u8 } },
                     2 => POp::PushDuring,
                     _ => POp::Close,
                 })
